@@ -117,6 +117,11 @@ func BuildClient(c ClientCfg, dial mail.DialContextFunc, logger mlog.Logger) (*m
 			opts = append(opts, mail.WithPort(2525), mail.WithTLSPortPolicy(target))
 		case "twice":
 			opts = append(opts, mail.WithTLSPortPolicy(weaker), mail.WithTLSPortPolicy(target))
+		case "ssl-toggle":
+			// the caller tried implicit TLS on this Client and went back: the STARTTLS policy
+			// it was constructed with is still the one that counts
+			opts = append(opts, mail.WithTLSPolicy(target))
+			after = func(cl *mail.Client) { cl.SetSSL(true); cl.SetSSL(false) }
 		default:
 			return nil, fmt.Errorf("unknown PolicyVia %q", c.PolicyVia)
 		}
